@@ -1,9 +1,9 @@
 package env
 
 import (
-	"github.com/avos-io/goat/gen/goatorepo"
 	"context"
 	"fmt"
+	"github.com/avos-io/goat/gen/goatorepo"
 	"time"
 
 	goat "github.com/avos-io/goat"
@@ -12,19 +12,19 @@ import (
 
 // Direct is client --pipe-- server.
 type Direct struct {
-	Tap       *Tap
-	Pipe      *Pipe
-	CC        *goat.ClientConn
-	Srv       *goat.Server
-	ServeDone bool
-	ServeErr  error
-	ServeCtx  context.Context
-	StopServe context.CancelFunc
-	Demux     *goat.Demux
-	Virtual   bool // the client's pipe does not end at the server (a demultiplexer or a proxy is in between)
-	Proxy     *goat.Proxy
-	Link      *Pipe // proxy -- server link (ViaProxy)
-	Rewriting bool  // the proxy in between translates the name the client dials: on the client's pipe requests and responses carry different names by design
+	Tap         *Tap
+	Pipe        *Pipe
+	CC          *goat.ClientConn
+	Srv         *goat.Server
+	ServeDone   bool
+	ServeErr    error
+	ServeCtx    context.Context
+	StopServe   context.CancelFunc
+	Demux       *goat.Demux
+	Virtual     bool // the client's pipe does not end at the server (a demultiplexer or a proxy is in between)
+	Proxy       *goat.Proxy
+	Link        *Pipe // proxy -- server link (ViaProxy)
+	Rewriting   bool  // the proxy in between translates the name the client dials: on the client's pipe requests and responses carry different names by design
 	Disconnects []string
 }
 
